@@ -3,6 +3,7 @@ package main
 import (
 	"encoding/json"
 	"fmt"
+	"go/types"
 	"os"
 	"strings"
 )
@@ -191,15 +192,65 @@ func (p *Program) extractConst(cs ConstSite) (string, error) {
 	return "", fmt.Errorf("bad kind")
 }
 
+// renamedConst looks for a package-level constant or variable of cs.Pkg whose name is not one
+// of the table's and whose value is want.
+func (p *Program) renamedConst(cs ConstSite, want string, sites []ConstSite) (string, bool) {
+	pk := p.ByPath[cs.Pkg]
+	if pk == nil {
+		return "", false
+	}
+	pinned := map[string]bool{}
+	for _, o := range sites {
+		if o.Pkg == cs.Pkg {
+			pinned[o.Name] = true
+		}
+	}
+	var names []string
+	scope := pk.Types.Scope()
+	for _, name := range scope.Names() {
+		if pinned[name] {
+			continue
+		}
+		switch scope.Lookup(name).(type) {
+		case *types.Const:
+			if cs.Kind == "const" {
+				if v, ok := p.ConstValue(cs.Pkg, name); ok && v == want {
+					names = append(names, name)
+				}
+			}
+		case *types.Var:
+			if cs.Kind == "var" {
+				if g := p.Global(cs.Pkg, name); g != nil {
+					if init := p.globalInit(g); init != nil && short(init.String()) == want {
+						names = append(names, name)
+					}
+				}
+			}
+		}
+	}
+	if len(names) == 0 {
+		return "", false
+	}
+	return strings.Join(names, "/"), true
+}
+
 func checkConsts(p *Program, r *Result, sites []ConstSite) {
 	for _, cs := range sites {
 		sub := cs.Pkg + "." + cs.Name
 		got, err := p.extractConst(cs)
+		want := specConst(r, cs.Key)
+		if err != nil && (cs.Kind == "const" || cs.Kind == "var") {
+			// renamed? a package-level constant/variable the table does not know, with the
+			// table's value (every use of the value is checked by the recipes anyway)
+			if name, ok := p.renamedConst(cs, want, sites); ok {
+				r.OK(sub, "const:"+cs.Key, "", "found under the name "+name, Witness{Kind: "table", Text: want})
+				continue
+			}
+		}
 		if err != nil {
 			r.Unk(sub, "const:"+cs.Key, "", err.Error())
 			continue
 		}
-		want := specConst(r, cs.Key)
 		if got == want {
 			r.OK(sub, "const:"+cs.Key, "", "", Witness{Kind: "table", Text: got})
 		} else {
